@@ -1,0 +1,86 @@
+//go:build verif
+
+// C12: refresh.retain garbage collection. Contracts for the deductive verifier in /verif (govc).
+// Only compiled with -tags verif.
+
+package snapstate
+
+// ---- the setting ------------------------------------------------------------------------------------
+
+// refresh.retain as doInstall sees it: never 0; whenever reading or parsing the option fails (that is
+// when config.IsNoOption is consulted) nothing has been taken from it and the result is the default,
+// 2 on classic and 3 on core
+//@ func refreshRetain
+//@   props C12
+//@   assigns nothing
+//@   ensures [never-zero] result != 0
+//@   ensures [default-on-error] called("IsNoOption") ==> result == ite(release.OnClassic, 2, 3)
+//@   guard call IsNoOption: [error-leaves-unset] retain == 0
+
+// ---- position of a revision in the sequence -----------------------------------------------------------
+
+// the last position of the revision in snapst.Sequence.Revisions, -1 when it is not there (carried over
+// from sequence.(*SnapSequence).LastIndex, proved there)
+//@ func (*SnapState).LastIndex
+//@   props C12
+//@   ensures [range] -1 <= result && result < len(snapst.Sequence.Revisions)
+//@   ensures [found] result >= 0 ==> snapst.Sequence.Revisions[result].Snap.Revision.N == revision.N
+//@   ensures [last] forall k int :: {snapst.Sequence.Revisions[k]} result < k && k < len(snapst.Sequence.Revisions) ==> snapst.Sequence.Revisions[k].Snap.Revision.N != revision.N
+
+// ---- the boot in-use oracle (assumption) --------------------------------------------------------------
+
+// bootNeeds(name, n): revision n of snap name is needed for booting. An arbitrary predicate: the
+// oracle handed to doInstall (boot.InUse in production) answers according to it and writes nothing.
+//@ ghost bootNeeds(str, int) bool
+
+// inUseCheck(snapsup.Type)
+//@ func dyncall:doInstall#29
+//@   trusted
+//@   assigns nothing
+
+// inUse(name, revision)
+//@ func dyncall:doInstall#30
+//@   trusted
+//@   assigns nothing
+//@   ensures result == bootNeeds(arg0, arg1.N)
+
+// ---- frames of the hooks doInstall calls on the way (assumptions) ------------------------------------
+
+// the device context hook (set by devicestate) looks the context up and writes no program state
+//@ func var:DeviceCtx
+//@   trusted
+//@   assigns nothing
+
+// func literal `t == snap.TypeSnapd || t == snap.TypeOS` unless replaced in tests
+//@ func var:excludeFromRefreshAppAwareness
+//@   trusted
+//@   assigns nothing
+
+// ---- the garbage collection block of doInstall --------------------------------------------------------
+//
+// loop 5: "discard everything after current", loop 6: take the target out of the local copy of the
+// sequence, loop 7: "normal garbage collect". Stated per call and per iteration, by position in the
+// sequence (see props/C12.json for why not by content across iterations).
+// In the step clauses called("removeInactiveRevision") is the flag "such a call was executed earlier on
+// this path"; a loop that contains the call leaves the flag unconstrained at its head, so proving
+// `called(..) || P` at every back edge means: an iteration that made no call satisfies P.
+
+//@ func doInstall
+//@   props C12
+//@   callpre assumed
+//@   guard call removeInactiveRevision: [of-this-snap] arg0 == st && arg1 == snapst && arg2 == instanceNameOf(snapsup) && arg5 == snapsup.Type
+//@   guard call removeInactiveRevision: [the-revision-at-i] 0 <= i && i < len(seq) && arg4.N == seq[i].Snap.Revision.N && arg3 == seq[i].Snap.SnapID
+//@   guard call removeInactiveRevision: [position-discardable] i > currentIndex || i + retain <= currentIndex
+//@   guard call removeInactiveRevision: [not-target-after-current] retain >= 1 && i > currentIndex ==> arg4.N != targetRevision.N
+//@   guard call removeInactiveRevision: [in-use-kept] i <= currentIndex ==> !bootNeeds(arg2, arg4.N)
+//@   guard call removeInactiveRevision: [in-use-kept-after-current] retain >= 1 && i > currentIndex ==> !bootNeeds(arg2, arg4.N)
+//@   loop 5: invariant [after-current] currentIndex < i
+//@   loop 5: step [advance] i == old(i) + 1
+//@   loop 5: step [discarded-unless-target] called("removeInactiveRevision") || old(seq[i].Snap.Revision.N) == targetRevision.N
+//@   loop 6: invariant [from-oldest] 0 <= i && currentIndex < len(seq)
+//@   loop 6: step [advance] i == old(i) + 1
+//@   loop 6: step [others-stay] old(seq[i].Snap.Revision.N) != targetRevision.N ==> seq == old(seq) && currentIndex == old(currentIndex) && forall k int :: {seq[k]} 0 <= k && k < len(seq) ==> seq[k] == old(seq[k])
+//@   loop 6: step [target-taken-out] old(seq[i].Snap.Revision.N) == targetRevision.N ==> len(seq) == old(len(seq)) - 1 && currentIndex == old(currentIndex) - 1 && arrayOf(seq) == old(arrayOf(seq))
+//@   loop 7: invariant [from-oldest] 0 <= i
+//@   loop 7: step [advance] i == old(i) + 1
+//@   loop 7: step [discarded-unless-in-use] called("removeInactiveRevision") || bootNeeds(instanceNameOf(snapsup), old(seq[i].Snap.Revision.N))
